@@ -9,7 +9,9 @@ CONSTANTS
   DollarAnchor = FALSE
   UnicodeDigits = FALSE
   NoRollback = FALSE
+  StaleKey = FALSE
 SPECIFICATION LtsSpec
+INVARIANT KeyFresh
 INVARIANT ObjConsistent
 INVARIANT ImplRefines
 PROPERTY AssignOrRollback
